@@ -645,7 +645,9 @@ def compare(case, obs, mouts):
         where = f"turn {k + 1}: "
         if o.get("reused_obj"):
             return where + "the call worked on a State object that an earlier call of the conversation had worked on (model: `json_to_state` gives every call a new object)"
-        if o["raised"] and o.get("left") is not None and mt.get("left") is not None and o["left"] != mt["left"]:
+        # `$bot_talking_state` only exists (and is only read by the model) with the dialog rails: compared there only
+        keys = ("orip", "talking") if case["dialog"] else ("orip",)
+        if o["raised"] and o.get("left") is not None and mt.get("left") is not None and any(o["left"].get(q) != mt["left"].get(q) for q in keys):
             return where + f"the State object the failed call leaves behind: impl {o['left']} model {mt['left']}"
         if o["raised"]:
             if not mt["reply"]["raised"]:
